@@ -66,12 +66,13 @@ def cases(tier, seed):
             out.append({"key": f"full/mask/{m}x{n}/{G.mask_name(mask)}", "entry": "classical_qsvd_full", "m": m, "n": n, "vals": None, "kU": "mask", "kV": "mask", "row": 0, "R": None, "mask": mask})
             out.append({"key": f"trunc/mask/{m}x{n}/{G.mask_name(mask)}/R=1", "entry": "classical_qsvd", "m": m, "n": n, "vals": None, "kU": "mask", "kV": "mask", "row": 0, "R": 1, "mask": mask})
     # unusual-but-legal variants (component supports, ties, gradings, circulant/Toeplitz, special matrices, layouts); spectrum from the oracle
-    for m, n in itertools.product(range(1, 5), repeat=2):
+    for m, n in list(itertools.product(range(1, 5), repeat=2)) + [(8, 2), (12, 3), (13, 3), (16, 4), (3, 12), (20, 5)]:
         for nm in xf_names(m, n):
             if nm in ("rowgraded", "colgraded"):
                 continue  # graded rectangular spectra: vectors ill-determined (DESIGN section 8 item 13)
             out.append({"key": f"full/xf/{m}x{n}/{nm}", "entry": "classical_qsvd_full", "m": m, "n": n, "vals": None, "kU": "mask", "kV": "mask", "row": 0, "R": None, "xf": nm})
-            out.append({"key": f"trunc/xf/{m}x{n}/{nm}/R=1", "entry": "classical_qsvd", "m": m, "n": n, "vals": None, "kU": "mask", "kV": "mask", "row": 0, "R": 1, "xf": nm})
+            for R in sorted({1, min(m, n)}):
+                out.append({"key": f"trunc/xf/{m}x{n}/{nm}/R={R}", "entry": "classical_qsvd", "m": m, "n": n, "vals": None, "kU": "mask", "kV": "mask", "row": 0, "R": R, "xf": nm})
     # enumerated list of larger shapes, simple spectra
     for (m, n) in ((9, 7), (7, 9), (12, 12), (17, 5), (5, 17), (33, 2), (2, 33)):
         p = min(m, n)
